@@ -36,6 +36,22 @@ def edge_facts(b):
                 out.append((bi, d, ("discr", cond, v)))
             if other not in [d for _, d in targets]:
                 out.append((bi, other, ("discr", cond, ("not", tuple(v for v, _ in targets)))))
+                # `if let Err(e) = r { .. }`: one variant of a two-variant enum (Option, Result) is named, the fall-through edge is
+                # the other one
+                c1 = strip_casts(cond)
+                if len(targets) == 1 and targets[0][0] in (0, 1) and isinstance(c1, tuple) and c1 and c1[0] == "discr":
+                    ty_ = None
+                    src_ = c1[1]
+                    while isinstance(src_, tuple) and src_ and src_[0] in ("ref", "deref", "cast"):
+                        src_ = src_[1]
+                    if isinstance(src_, tuple) and src_ and src_[0] == "var":
+                        ty_ = b.local_ty(src_[1])
+                    elif isinstance(src_, tuple) and src_ and src_[0] == "call" and len(src_) > 3 and src_[3]:
+                        ty_ = None
+                        for (cbi, ct) in b.calls():
+                            pass
+                    if isinstance(ty_, str) and ty_.startswith(("std::option::Option<", "std::result::Result<", "core::option::Option<", "core::result::Result<")):
+                        out.append((bi, other, ("discr", cond, 1 - targets[0][0])))
             # a `match` on an integer itself (`match n { 0 => .., _ => .. }`) is a comparison with the literal
             c0 = strip_casts(cond)
             if not (isinstance(c0, tuple) and c0 and c0[0] == "discr"):
